@@ -22,6 +22,9 @@ def crafted():
         {'id': 'known-F20', 'handlers': {'a': H.hdl(['create', 'update'], ['ok', 'ok', 'ok']), 'b': H.hdl(['create', 'update'], ['ok', ('temp', 5), 'ok'])},
          'lifecycle': 'all', 'env': [(10, 1, 'edit', 2), (12, 1, 'edit', 1)], 'end': 90, 'tail_from': 40},
         # F22: the object stops matching in the middle of a cycle: the records stay
+        # F8: an edit lands while b waits for its retry; a has completed against the older state; the cycle closes on the newer one
+        {'id': 'known-F8', 'handlers': {'a': H.hdl(['create', 'update'], ['ok']), 'b': H.hdl(['create', 'update'], [('temp', 3), 'ok'])},
+         'lifecycle': 'asap', 'env': [(2, 1, 'edit', 2)], 'end': 90, 'tail_from': 40},
         {'id': 'known-F22', 'handlers': {'a': H.hdl(['create', 'update'], [('temp', 5), 'ok'])},
          'lifecycle': 'asap', 'env': [(3, 1, 'toggle')], 'end': 90, 'tail_from': 40},
     ]
